@@ -300,6 +300,9 @@ def _r_ptp(ck, world, table) -> None:
     info = rule_info(table, rule)
     combos = [c for c in combined_paths(world, table, rule) if c[1].exit == 'return']
     ck.floor('R-PTP', len(combos), 1, 'returning paths of TransposeIndexRule')
+    from .c12 import flag_kind_invariant
+
+    flag_kind_invariant(ck, table, 'R-PTP')
     for fs, path, env, fn in combos:
         ck.expect('R-PTP', identity_guard(fs) is not None, fn, 'P^T P rewritten only when left.operator is right',
                   'Index^T . Index is rewritten without checking that the transpose wraps this very index operator', instance='identity')
@@ -361,36 +364,58 @@ def _r_ptp(ck, world, table) -> None:
 
 
 # ------------------------------------------------------------------------------ R-DRV
-def _r_drv(ck, world, table) -> None:
+def _r_drv(ck, world, table, strict_order: bool = False) -> None:
     comp = table.get(f'{CORE}.CompositionOperator')
     red = table.resolve(comp, 'reduce')
     if red is None or not isinstance(red.node, ast.FunctionDef):
         raise AnalysisError('anchor vanished: CompositionOperator.reduce')
     fn = red.node
     s = fn.args.args[0].arg
-    paths = [p for p in function_paths(fn) if p.exit == 'return']
+    from ..terms import return_cases
+
+    paths = return_cases(world, fn)
     ck.floor('R-DRV', len(paths), 3, 'returning paths of CompositionOperator.reduce')
     S = ('var', s)
     want_ops = None
-    for p in paths:
-        e = path_env(p)
-        ops_t = next((v for v in e.values() if isinstance(v, tuple) and v and v[0] == 'call' and isinstance(v[1], tuple) and v[1][0] == 'attr' and v[1][2] == 'apply'
-                      and v[1][1] == ('call', ('var', 'AlgebraicReductionRule'), (), ())), None)
-        # operands = AlgebraicReductionRule().apply([RED(operand) for operand in self.operands])
-        good_ops = (
-            ops_t is not None and ops_t[0] == 'call' and ops_t[1] == ('attr', ('call', ('var', 'AlgebraicReductionRule'), (), ()), 'apply')
-            and len(ops_t[2]) == 1 and ops_t[2][0][0] == 'comp' and ops_t[2][0][1][0] == 'RED'
-            and ops_t[2][0][2][0][1] == ('attr', S, 'operands') and ops_t[2][0][1][1] == ops_t[2][0][2][0][0]
+    apply_t = ('attr', ('call', ('var', 'AlgebraicReductionRule'), (), ()), 'apply')
+
+    def elementwise_reduce(t):
+        return t[0] == 'comp' and t[1][0] == 'RED' and len(t[2]) == 1 and t[1][1] == t[2][0][0] and not t[2][0][2]
+
+    def chain_equiv(t) -> bool:
+        """t denotes a list whose product is the product of self.operands: the operands themselves, each operand reduced,
+        or the driver applied to such a list (every rewrite of the driver is product-preserving: the other R-* rules)."""
+        if t == ('attr', S, 'operands'):
+            return True
+        if t[0] == 'call' and t[1] in (('var', 'list'), ('var', 'tuple')) and len(t[2]) == 1:
+            return chain_equiv(t[2][0])
+        if elementwise_reduce(t):
+            return chain_equiv(t[2][0][1])
+        if t[0] == 'call' and t[1] == apply_t and len(t[2]) == 1:
+            return chain_equiv(t[2][0])
+        return False
+
+    def uses_driver(t) -> bool:
+        return contains(t, apply_t)
+
+    for pf, rt0, e, fs_txt, _node in paths:
+        # the operand list of this path: the largest chain-equivalent term the returned value is built from
+        cands = [v for v in e.values() if isinstance(v, tuple) and v and uses_driver(v) and (chain_equiv(v) or v[0] in ('call', 'comp'))]
+        ops_t = next((v for v in sorted(cands, key=lambda v: -len(repr(v))) if contains(rt0, v)), None) or (cands[0] if cands else None)
+        good_ops = ops_t is not None and chain_equiv(ops_t)
+        first = (
+            ops_t is not None and ops_t[0] == 'call' and ops_t[1] == apply_t and len(ops_t[2]) == 1 and elementwise_reduce(ops_t[2][0])
+            and ops_t[2][0][2][0][1] == ('attr', S, 'operands')
         )
         if want_ops is None:
             want_ops = good_ops
-            ck.expect('R-DRV', good_ops, fn, 'every operand is reduced, in order, before the chain rules are applied to the list',
-                      f'CompositionOperator.reduce does not reduce each operand in order before the chain scan: operands = {show(ops_t)}', instance='operands reduced first')
-        rt = term(p.node.value, e)
-        from ..terms import facts as _facts
-
-        pf = _facts(p)
-        fs_txt = ' and '.join(ast.unparse(ev[1]) + ('' if ev[2] else ' [false]') for ev in p.events if ev[0] == 'cond')
+            ck.expect('R-DRV', good_ops, fn, 'the operand list is obtained from self.operands by reducing operands and applying the chain driver only: its product is the product of the chain',
+                      f'CompositionOperator.reduce builds its operand list as {show(ops_t)}, which is not self.operands rewritten by operand reduction and the chain driver', instance='operand list')
+            if strict_order:
+                ck.expect('R-DRV', first, fn, 'every operand is reduced, in order, before the chain rules are applied to the list',
+                          f'CompositionOperator.reduce does not reduce each operand in order before the chain scan: operands = {show(ops_t)} '
+                          '(the driver never sees what an operand becomes through its own reduce(): identities, scalars and reducible neighbours stay)', instance='operands reduced first')
+        rt = rt0
         len_ops = ('call', ('var', 'len'), (ops_t,), ())
         if rt[0] == 'call' and rt[1] == ('var', 'IdentityOperator'):
             ck.expect('R-DRV', rt[2] == (('IN', S),) and ('eq', frozenset({len_ops, ('const', '0')})) in pf, fn,
